@@ -326,6 +326,7 @@ class Fn:
         self.names = {}
         self.loop_tmps = {}
         self.dropped = 0
+        self.dropped_vars = set()
 
 
 class Lowerer:
@@ -641,6 +642,30 @@ class Lowerer:
         self.worklist.append(f)
         return f
 
+    def lower_now(self, f):
+        """skeleton mode: lower a callee (and what it needs) eagerly so that a callee outside the
+        subset drops the calling statement instead of aborting the unit"""
+        save_cur = self.cur
+        mark_fns = set(self.fns)
+        mark_order = len(self.fn_order)
+        base = [x for x in self.worklist if x is not f]
+        try:
+            self.worklist = [f]
+            while self.worklist:
+                g = self.worklist.pop(0)
+                g.skeleton_callee = True
+                self.lower_fn(g)
+                self.fn_order.append(g)
+        except Unsupported:
+            for k in set(self.fns) - mark_fns:
+                self.by_cname.pop(self.fns[k].cname, None)
+                del self.fns[k]
+            del self.fn_order[mark_order:]
+            raise
+        finally:
+            self.worklist = base
+            self.cur = save_cur
+
     # ---- driver
     def run(self):
         while self.worklist:
@@ -834,6 +859,31 @@ class Lowerer:
         k = n.get('kind')
         I = self.ind(d)
         if k == 'CompoundStmt':
+            until = getattr(self.cur, 'keep_until', None) if top else None
+            if until:
+                # region = every top-level statement before the (kind, ordinal) one
+                counts, parts, hit = {}, [], False
+                for c in n.get('inner', []):
+                    ck = c.get('kind')
+                    o = counts.get(ck, 0)
+                    counts[ck] = o + 1
+                    if (ck, o) == tuple(until):
+                        hit = True
+                        self.note('region of %s ends before top-level %s #%d at %s: the rest of the body is not lowered' % (self.cur.cname, ck, o, where(c)))
+                        break
+                    parts.append(self.skel_stmt(c, d + 1) if getattr(self.cur, 'skeleton', False) else self.stmt(c, d + 1))
+                if not hit:
+                    raise InfraError('contract no longer attached: region end %s not found in %s' % (until, self.cur.cname))
+                for x in getattr(self.cur, 'export_locals', []):
+                    parts.append(self.ind(d + 1) + 'EXPORT_LOCAL(%s);\n' % x)
+                parts.append(self.ind(d + 1) + 'REGION_FALLTHROUGH;\n')
+                if self.cur.rett.kind != 'b' or self.cur.rett.name != 'void':
+                    rn = getattr(self.cur, 'region_return', None)
+                    if rn:
+                        parts.append(self.ind(d + 1) + 'return %s;\n' % rn)
+                    else:
+                        parts.append(self.ind(d + 1) + '{ %s; return __region_ret; }\n' % self.cdecl(self.cur.rett.noref(), '__region_ret'))
+                return '%s{\n%s%s}\n' % (self.ind(d - 1), ''.join(parts), self.ind(d - 1))
             keep = getattr(self.cur, 'keep_top', None) if top else None
             if keep:
                 # region = the listed top-level statements of the function (kind, ordinal among that kind)
@@ -869,7 +919,10 @@ class Lowerer:
                     raise InfraError('contract no longer attached: truncation call %s not found in %s' % (trunc, self.cur.cname))
                 body = ''.join(parts)
                 return '%s{\n%s%s}\n' % (self.ind(d - 1), body, self.ind(d - 1))
-            body = ''.join(self.stmt(c, d + 1) for c in n.get('inner', []))
+            if getattr(self.cur, 'skeleton', False):
+                body = ''.join(self.skel_stmt(c, d + 1) for c in n.get('inner', []))
+            else:
+                body = ''.join(self.stmt(c, d + 1) for c in n.get('inner', []))
             return '%s{\n%s%s}\n' % (self.ind(d - 1) if top else I, body, self.ind(d - 1) if top else I)
         if k == 'NullStmt':
             return I + ';\n'
@@ -909,7 +962,14 @@ class Lowerer:
                 if chosen is None or chosen.get('kind') == 'NullStmt':
                     return ''
                 return self.stmt(chosen, d)
-            s = self.line(n) + I + 'if (%s)\n' % self.expr(cond)
+            try:
+                ctext = self.expr(cond)
+            except Unsupported as ex:
+                if not getattr(self.cur, 'skeleton', False):
+                    raise
+                self.note('SKELETON: condition at %s replaced by an arbitrary choice (%s)' % (where(n), str(ex)[:120]))
+                ctext = 'nondet_bool()'
+            s = self.line(n) + I + 'if (%s)\n' % ctext
             s += self.block(then, d)
             if els is not None:
                 s += I + 'else\n' + self.block(els, d)
@@ -1004,6 +1064,34 @@ class Lowerer:
                 if r:
                     return r
         return None
+
+    def skel_stmt(self, c, d):
+        """skeleton mode (DESIGN section 2): a statement outside the subset is dropped and logged;
+        variables it declares become unavailable, so later statements using them are dropped too"""
+        f = self.cur
+        save = (len(f.tmps), f.loops, f.dropped)
+        try:
+            return self.stmt(c, d)
+        except Unsupported as ex:
+            if c.get('kind') in ('ReturnStmt', 'BreakStmt', 'ContinueStmt'):
+                raise
+            del f.tmps[save[0]:]
+            if f.loops != save[1]:
+                raise InfraError('skeleton: a loop could not be lowered in %s: %s' % (f.cname, ex))
+            names = []
+            def decls(n):
+                if n.get('kind') == 'VarDecl' and n.get('name'):
+                    names.append(n['name'])
+                for x in n.get('inner', []):
+                    if isinstance(x, dict) and x.get('kind') != 'LambdaExpr':
+                        decls(x)
+            if c.get('kind') == 'DeclStmt':
+                decls(c)
+            f.dropped_vars.update(names)
+            self.note('SKELETON: dropped %s at %s (%s)%s' % (c.get('kind'), where(c), str(ex)[:140], (' -- variables now unavailable: ' + ','.join(names)) if names else ''))
+            k = f.dropped
+            f.dropped += 1
+            return self.ind(d) + '/* skeleton: dropped %s at %s */ DROPPED_STMT_%s_%d;\n' % (c.get('kind'), where(c), f.cname, k)
 
     def block(self, n, d):
         if n.get('kind') == 'CompoundStmt':
@@ -1325,6 +1413,8 @@ class Lowerer:
             if rk == 'VarDecl' and d is None:
                 return self.external_var(r)
             nm = f.names.get(rid) or r['name']
+            if nm in f.dropped_vars:
+                raise Unsupported('uses variable %s whose declaration was dropped' % nm)
             if rid in f.refvars:
                 return '(*%s)' % nm
             return nm
@@ -1377,6 +1467,9 @@ class Lowerer:
                 v = self.const_value(inits[0])
                 if v is not None and t.kind in ('b', 'enum') and t.name not in ('double', 'float'):
                     txt = 'static const %s = %s;' % (self.cdecl(t, name), v)
+                elif t.kind == 'rec' and self.strip(inits[0]).get('kind') in ('CXXConstructExpr', 'CXXTemporaryObjectExpr', 'CXXFunctionalCastExpr'):
+                    self.note('global %s: constructor-call initialiser is not a C constant expression; object left zero-initialised (value not modelled)' % name)
+                    txt = 'static const %s;' % self.cdecl(t, name)
                 else:
                     txt = 'static const %s = %s;' % (self.cdecl(t, name), self.expr(inits[0]))
             if self.cur.tmps:
@@ -1654,6 +1747,8 @@ class Lowerer:
         if d['id'] in self.idx.pattern:
             raise Unsupported('call to dependent template pattern %s' % q)
         f = self.request_fn(d)
+        if getattr(self.cur, 'skeleton', False) and f.text is None and f in self.worklist:
+            self.lower_now(f)
         if not hasattr(f, 'ret_hint'):
             ht = self.ty(e['type'])
             f.ret_hint = Ty('ref', to=ht) if self.is_lvalue(e) and ht.kind != 'ref' else ht
@@ -1772,6 +1867,17 @@ class Lowerer:
                             % (t.name, m, t.name, t.name, ect, ect))
             self.note('std::vector copy modelled: same length, ARBITRARY contents (sound for memory safety only), trusted')
             return '%s(%s)' % (h, self.addr(args[0]))
+        if t.key.startswith('std::vector<') and 1 <= len([a for a in args if a.get('kind') != 'CXXDefaultArgExpr']) <= 2 \
+                and self.ty(args[0]['type']).noref().kind == 'b':
+            self.need_record(t)
+            et = self.parse_type(split_top(t.key[len('std::vector<'):-1])[0])
+            ect = self.cty(et)
+            m = mangle(ect)
+            h = self.helper('stdvec_make_%s' % m,
+                            'static inline struct %s stdvec_make_%s(unsigned long n) { struct %s d; d._size = n; d._cap = n; d._data = (%s*)malloc(d._cap * sizeof(%s)); __CPROVER_assume(d._data != 0); return d; }'
+                            % (t.name, m, t.name, ect, ect))
+            self.note('std::vector(n[, value]) modelled: n elements of ARBITRARY contents (fill value not modelled), trusted')
+            return '%s(%s)' % (h, self.expr(args[0]))
         # copy / move construction = struct copy
         if len(args) == 1:
             at = self.ty(args[0]['type']).noref()
